@@ -9,7 +9,6 @@ package explore
 
 import (
 	"encoding/json"
-	"fmt"
 	"sort"
 	"time"
 
@@ -22,6 +21,7 @@ type Outcome struct {
 	Violation    string // canonical violation signature, "" if the property held
 	Msg          string
 	Inconclusive bool // cut by the horizon before an "eventually" clause could be decided
+	Diverged     bool // the replayed prefix did not reproduce (see RunOnce)
 }
 
 // Scenario is a closed system: Build returns the main harness thread, an optional observer
@@ -69,6 +69,7 @@ type Stats struct {
 	Races        map[string]int64 `json:"races"`      // unordered conflicting plain accesses -> executions showing them
 	Accesses     int64            `json:"accesses"`   // instrumented plain accesses checked against the clocks
 	DoneAt       map[string]int64 `json:"done_at"`    // "bound=k" / "all interleavings" -> scenarios explored exactly that far
+	Diverged     int64            `json:"diverged"`   // executions whose replayed prefix did not reproduce (set aside)
 	Focused      int64            `json:"focused"`    // executions of the race-directed phase
 	FocusedScen  int64            `json:"focused_scenarios"`
 }
@@ -92,6 +93,7 @@ func (a *Stats) Merge(b *Stats) {
 	a.Found = append(a.Found, b.Found...)
 	a.Accesses += b.Accesses
 	a.Focused += b.Focused
+	a.Diverged += b.Diverged
 	a.FocusedScen += b.FocusedScen
 	for k, v := range b.Races {
 		a.Races[k] += v
@@ -144,7 +146,11 @@ func RunOnce(sc Scenario, prefix []int) (*vs.Sched, Outcome) {
 	}
 	s := vs.Run(main, prefix, sc.Horizon, sc.EnvSince, obs)
 	if s.Diverged {
-		panic(fmt.Sprintf("HARNESS-ERROR: schedule diverged while replaying a prefix of %v (uncaptured nondeterminism)", sc.Spec))
+		// The same choices did not lead to the same scheduling points: something the scheduler does
+		// not own differs between two executions (state the code under test carries from one run to
+		// the next - package-level or pooled -, real time, randomness). Never a verdict: the
+		// execution is set aside and counted.
+		return s, Outcome{Class: "diverged", Inconclusive: true, Diverged: true}
 	}
 	return s, verdict(s)
 }
@@ -156,6 +162,11 @@ func (e *Explorer) run(sc Scenario, prefix []int) *vs.Sched {
 	st.Steps += int64(s.Steps)
 	if s.Steps > st.MaxSteps {
 		st.MaxSteps = s.Steps
+	}
+	if o.Diverged {
+		st.Diverged++
+		s.Trace = s.Trace[:0] // nothing below this execution can be trusted: do not branch from it
+		return s
 	}
 	if o.Inconclusive {
 		st.Inconclusive++
